@@ -752,6 +752,44 @@ def cash_replay(ctx: Ctx, recs: List[Dict[str, Any]]) -> None:
                                       {"x": rs[cols[i]]["x"], "expected": exp[i].item(), "observed": cash[i].item()})
 
 
+def cash_large_level(ctx: Ctx) -> None:
+    """Samples with a LARGE LEVEL and a small spread (a book worth 1e6 whose outcomes differ by a few units; 1e3 + a few 1e-3):
+    the certainty equivalent found by the default search moves with the level - it is the level plus the certainty equivalent
+    of the spread for translation-equivariant criteria (mean, mean minus standard deviation) and (mean sqrt x)^2 for the
+    isoelastic loss - and is not the worst outcome."""
+    import pfhedge.nn as nn
+    from pfhedge.nn import HedgeLoss
+
+    class MeanLoss(HedgeLoss):
+        def forward(self, input, target=0.0):
+            return -(input - target).mean(0)
+
+    class MeanStdLoss(HedgeLoss):
+        def forward(self, input, target=0.0):
+            z = input - target
+            return -(z.mean(0) - z.std(0, unbiased=False))
+
+    dtype = torch.float64
+    base = torch.tensor([[0.0, 3.0, 8.0, 1.0, 5.0, 2.0, 7.0, 4.0], [1.0, 1.0, 2.0, 6.0, 0.0, 0.0, 3.0, 3.0]], dtype=dtype).t()     # (8, 2)
+    for level, scale in ((1e6, 1.0), (1e3, 1e-3), (-1e6, 1.0), (1e9, 16.0)):
+        X = level + scale * base
+        cases = [("user MeanLoss", MeanLoss(), X.mean(0)), ("user MeanStdLoss", MeanStdLoss(), X.mean(0) - X.std(0, unbiased=False))]
+        if level > 0:
+            cases.append(("IsoelasticLoss(0.5)", nn.IsoelasticLoss(0.5), X.sqrt().mean(0).square()))
+            cases.append(("IsoelasticLoss(1)", nn.IsoelasticLoss(1.0), X.log().mean(0).exp()))
+        for name, crit, want in cases:
+            for mode, call, w in (("one sample", lambda: crit.cash(X[:, 0]), want[0]), ("two columns", lambda: crit.cash(X), want)):
+                ctx.count(n=1)
+                try:
+                    got = call()
+                except Exception as e:
+                    ctx.violation(f"cash:{name}:large-level:raises", f"{name}.cash raised {type(e).__name__} on a sample of level {level} and spread {8 * scale} ({mode})", {"error": repr(e)[:200]})
+                    continue
+                if got.shape != w.shape or not bool(((got - w).abs() <= 2e-5 * 8 * scale + 1e-9 * abs(level)).all()):
+                    ctx.violation(f"cash:{name}:large-level", f"{name}.cash of a sample of level {level} and spread {8 * scale} is not its certainty equivalent ({mode})",
+                                  {"level": level, "spread": 8 * scale, "expected": w.tolist(), "observed": got.tolist(), "worst": X.min(0).values.tolist()})
+
+
 # =============================================================================================
 # C06: Hedger.price / compute_loss against PriceFlow.tla
 # =============================================================================================
